@@ -47,6 +47,10 @@ func RenderTemplates(_ context.Context, pkg *packagetypes.Package, tmplCtx packa
 		}
 	}
 
+	// Rendered files are collected separately and only merged into the file map after
+	// all templates have been executed: getFile/getFileGlob read pkg.Files, so writing
+	// into it while iterating would make the output depend on map iteration order.
+	rendered := map[string][]byte{}
 	for path := range pkg.Files {
 		if !packagetypes.IsTemplateFile(path) {
 			// Not a template file, skip.
@@ -58,8 +62,12 @@ func RenderTemplates(_ context.Context, pkg *packagetypes.Package, tmplCtx packa
 			return fmt.Errorf("executing template from %s with context %+v: %w", path, tctx, err)
 		}
 
-		// save back to file map without the template suffix
-		pkg.Files[packagetypes.StripTemplateSuffix(path)] = buf.Bytes()
+		rendered[packagetypes.StripTemplateSuffix(path)] = buf.Bytes()
+	}
+
+	// save back to file map without the template suffix
+	for path, content := range rendered {
+		pkg.Files[path] = content
 	}
 
 	return nil
